@@ -719,7 +719,12 @@ class _PairsClassifierMixin(BaseMetricLearner, ClassifierMixin):
 
     if strategy in ['max_tpr', 'max_tnr']:
       if strategy == 'max_tpr':
-        indices = np.where(1 - fpr >= min_rate)[0]
+        # the true negative rate is computed from the counts: `1 - fpr` can
+        # lose the last bit (1 - 4/5 < 0.2), which would reject a cut-off that
+        # attains min_rate exactly
+        n_neg = np.sum(np.asarray(y_valid) != 1)
+        tnr = (n_neg - np.rint(fpr * n_neg)) / n_neg
+        indices = np.where(tnr >= min_rate)[0]
         imax = np.argmax(tpr[indices])
 
       if strategy == 'max_tnr':
